@@ -127,6 +127,8 @@ func (fs *fsMutable) deleteNSEntry(p fuseops.InodeID, c string) error {
 		pNode.attr.Nlink--
 	}
 
+	// No name refers to the inode any more: ForgetInode may drop it once the kernel lets go of it
+	cNode.unlinked = true
 	fs.lookupTree, _, _ = fs.lookupTree.Delete(lk)
 	children := fs.readDirMap[p]
 	// Delete from parent read dir
@@ -735,17 +737,9 @@ func getPathToBackingFile(iNode fuseops.InodeID) string {
 }
 
 func shouldDelete(n *nodeEntry) bool {
-	// LookupCount should be zero.
-	if n.attr.Mode.IsDir() {
-		if n.refCount == 0 {
-			return true
-		}
-	} else {
-		if n.refCount == 0 && n.attr.Nlink == 0 {
-			return true
-		}
-	}
-	return false
+	// The kernel holds no reference any more (lookup count zero) and the inode has been unlinked.
+	// An inode that is merely evicted from the kernel's cache is still part of the tree.
+	return n.refCount == 0 && n.unlinked
 }
 
 type commitChans struct {
